@@ -7,7 +7,7 @@
 //! One binary, three roles:
 //!  * supervisor (default): enumerates the inputs of every entry point once to count and
 //!    fingerprint them, cuts them into blocks, runs one worker subprocess per block (16 in
-//!    parallel), watches each worker's write-ahead log (2 s wall cap per input), attributes a
+//!    parallel), watches each worker's write-ahead log (2 s CPU-time cap per input, 60 s wall backstop), attributes a
 //!    crash / hang to the input in flight, confirms it twice in isolation and restarts the worker
 //!    behind it;
 //!  * `--worker <entry> <start> <end> <wal> <res>`: regenerates the same input stream and runs
@@ -38,8 +38,67 @@ use mc_nopanic::{
 };
 use serde_json::{json, Value};
 
-/// wall cap per input
+/// cap per input, measured in CPU time of the worker process (so that a loaded machine does not turn a
+/// slow input into a "hang"); `HARD_WALL_CAP` is the wall-clock backstop for a worker that is
+/// blocked rather than spinning
 const WALL_CAP: Duration = Duration::from_secs(2);
+const HARD_WALL_CAP: Duration = Duration::from_secs(60);
+
+/// user + system CPU time of a process so far and whether it is runnable right now (state `R`), from
+/// /proc/<pid>/stat (clock ticks are 1/100 s on Linux)
+fn cpu_state(pid: u32) -> Option<(Duration, bool)> {
+    let stat = fs::read_to_string(format!("/proc/{pid}/stat")).ok()?;
+    // the command name (field 2) may contain spaces: fields are counted from the closing parenthesis
+    let rest = stat.rsplit_once(')')?.1;
+    let f: Vec<&str> = rest.split_whitespace().collect();
+    let utime: u64 = f.get(11)?.parse().ok()?;
+    let stime: u64 = f.get(12)?.parse().ok()?;
+    // a multi-threaded worker: the main thread waits in join while the 2 MiB thread runs, so look at
+    // every task of the process
+    let mut runnable = f.first() == Some(&"R");
+    if let Ok(tasks) = fs::read_dir(format!("/proc/{pid}/task")) {
+        for t in tasks.flatten() {
+            if let Ok(st) = fs::read_to_string(t.path().join("stat")) {
+                if st.rsplit_once(')').map(|x| x.1.trim_start().starts_with('R')).unwrap_or(false) {
+                    runnable = true;
+                }
+            }
+        }
+    }
+    Some((Duration::from_millis((utime + stime) * 10), runnable))
+}
+
+fn cpu_time(pid: u32) -> Option<Duration> {
+    cpu_state(pid).map(|x| x.0)
+}
+
+/// Progress watchdog of one input: a hang is (a) more than `WALL_CAP` of CPU time without a result
+/// (spinning; independent of machine load), (b) more than `WALL_CAP` of wall time during which the
+/// process was practically never runnable and used no CPU (blocked), or (c) the wall backstop.
+struct Watchdog {
+    since: Instant,
+    cpu0: Duration,
+    polls: u32,
+    runnable_polls: u32,
+}
+
+impl Watchdog {
+    fn new(pid: u32) -> Self {
+        Watchdog { since: Instant::now(), cpu0: cpu_time(pid).unwrap_or_default(), polls: 0, runnable_polls: 0 }
+    }
+    fn hung(&mut self, pid: u32) -> bool {
+        let wall = self.since.elapsed();
+        let Some((cpu, runnable)) = cpu_state(pid) else { return wall > WALL_CAP };
+        self.polls += 1;
+        if runnable {
+            self.runnable_polls += 1;
+        }
+        let spent = cpu.saturating_sub(self.cpu0);
+        spent > WALL_CAP
+            || (wall > WALL_CAP && spent < Duration::from_millis(100) && self.runnable_polls * 20 < self.polls)
+            || wall > HARD_WALL_CAP
+    }
+}
 /// a worker regenerates the stream up to its block before the first input: separate allowance
 const STARTUP_CAP: Duration = Duration::from_secs(180);
 /// the stack every input runs on: the default size of a Rust thread
@@ -416,11 +475,14 @@ fn run_one(entry: &str, input: &[u8], tier: Tier) -> Verdict {
     });
     let t0 = Instant::now();
     let cap = WALL_CAP + Duration::from_millis(1000);
+    let pid = child.id();
+    let _ = (t0, cap);
+    let mut dog = Watchdog::new(pid);
     let status = loop {
         match child.try_wait() {
             Ok(Some(st)) => break Some(st),
             Ok(None) => {
-                if t0.elapsed() > cap {
+                if dog.hung(pid) {
                     let _ = child.kill();
                     let _ = child.wait();
                     break None;
@@ -649,6 +711,8 @@ fn run_block(plan: &Plan, block: &Block, tier: Tier, dir: &Path, job_id: usize) 
         // watch the log
         let mut last_len = 0u64;
         let mut last_change = Instant::now();
+        let pid = child.id();
+        let mut dog = Watchdog::new(pid);
         let mut hung = false;
         let status = loop {
             match child.try_wait() {
@@ -660,9 +724,10 @@ fn run_block(plan: &Plan, block: &Block, tier: Tier, dir: &Path, job_id: usize) 
             if len != last_len {
                 last_len = len;
                 last_change = Instant::now();
+                dog = Watchdog::new(pid);
             } else {
-                let cap = if len == 0 { STARTUP_CAP } else { WALL_CAP };
-                if last_change.elapsed() > cap {
+                let over = if len == 0 { last_change.elapsed() > STARTUP_CAP } else { dog.hung(pid) };
+                if over {
                     // make sure it is an input that is stuck, not the stream generator between inputs
                     let _ = child.kill();
                     let st = child.wait().unwrap_or_else(|e| machinery_error(&format!("wait: {e}")));
@@ -987,7 +1052,7 @@ fn supervisor(args: &Args) -> ! {
          nest the value d deep in arrays and in objects for d in {depths}, replace strings by 255/256/257/65535-byte strings \
          (plain and sigil/server-preserving; shortened so that the input stays <= 64 KiB + 1); (HTML) 12 element patterns nested to \
          {hd} elements, closed and unclosed; invalid UTF-8 only where the API takes bytes; earlier findings as regression inputs. \
-         Every input runs in a worker process on a 2 MiB thread under catch_unwind with a write-ahead log, 2 s wall cap, crash / hang \
+         Every input runs in a worker process on a 2 MiB thread under catch_unwind with a write-ahead log, 2 s cap per input (CPU time of the worker; 60 s wall backstop), crash / hang \
          confirmed twice in isolation; canaries (2 accepted + 1 truncated input per entry point) are evaluated in a fresh process and \
          again after every rejected or panicking input of the block's sequence. state = one distinct input of an entry point \
          (deduplicated per entry point); transition = one call of an entry-point closure (inputs + canary evaluations + isolation re-runs); \
@@ -999,7 +1064,7 @@ fn supervisor(args: &Args) -> ! {
         hd = tier.pick("{1,2,99,100,101,127,128,255,256,511,512,1023,1024}", "1..=1024"),
     ));
     report.assume("the entry-point closures (mc-nopanic/src/entries.rs) call the ruma API the way a client / homeserver does; an Accepted digest covers the Debug and serialized form of the result plus the accessors called on it");
-    report.assume("stack exhaustion is judged on a 2 MiB thread (Rust's default); the per-input wall cap of 2 s stands for `hangs`");
+    report.assume("stack exhaustion is judged on a 2 MiB thread (Rust's default); the per-input cap of 2 s CPU time (60 s wall backstop) stands for `hangs`");
     report.assume("only single mutations of the listed seeds; inputs larger than 64 KiB + 1, JSON nesting beyond 256 and HTML beyond 1024 elements are out of scope");
     report.assume("HTML entry points never reject: `rejected` there means the output differs from the input, and the canaries are re-evaluated after every input");
     let _ = fs::remove_dir_all(&dir);
